@@ -29,6 +29,12 @@ def quiet():
         yield out, err
 
 
+def _fresh(s):
+    """A string object of its own (not the interned literal the harness or the library holds): code that
+    compares strings by identity is correct on literals and wrong on everything a reader delivers."""
+    return (s + '\0')[:-1] if isinstance(s, str) else s
+
+
 def build(mt, fill='tiger', child_order=None, constituent_fields=None):
     """Build a library tree from a model tree.
 
@@ -41,19 +47,19 @@ def build(mt, fill='tiger', child_order=None, constituent_fields=None):
         t.parent = parent
         if isinstance(node, int):
             tok = mt.toks[node - 1]
-            t.data['word'] = tok['word']
-            t.data['label'] = tok['pos']
-            t.data['lemma'] = tok.get('lemma', '--')
-            t.data['morph'] = tok.get('morph', '--')
-            t.data['edge'] = tok.get('edge', '--')
+            t.data['word'] = _fresh(tok['word'])
+            t.data['label'] = _fresh(tok['pos'])
+            t.data['lemma'] = _fresh(tok.get('lemma', '--'))
+            t.data['morph'] = _fresh(tok.get('morph', '--'))
+            t.data['edge'] = _fresh(tok.get('edge', '--'))
             t.data['num'] = node
             if fill == 'brackets':
                 t.data['lemma'] = None
         else:
-            t.data['label'] = node[0]
-            t.data['edge'] = node[1]
-            t.data['morph'] = '--'
-            t.data['lemma'] = None if fill == 'brackets' else '--'
+            t.data['label'] = _fresh(node[0])
+            t.data['edge'] = _fresh(node[1])
+            t.data['morph'] = _fresh('--')
+            t.data['lemma'] = None if fill == 'brackets' else _fresh('--')
             if constituent_fields:
                 t.data.update(constituent_fields)
             kids = [mk(k, t) for k in node[2]]
